@@ -75,14 +75,17 @@ Record rspec := mkSpec {
   s_optres : list Z;       (* its resources *)
   s_alloc : res;           (* ReservationRequests(r): Status.Allocatable / template requests *)
   s_reserved : res;        (* node.koordinator.sh/reservation annotation resources *)
-  s_ownbad : bool          (* Spec.Owners does not parse *)
+  s_ownbad : bool;         (* Spec.Owners / the reservation-owners annotation does not parse *)
+  s_kind : Z               (* 0 Reservation object, 1 pod in reservation operating mode *)
 }.
 
 Definition set_phase (s : rspec) (ph : Z) : rspec :=
   mkSpec (s_uid s) (s_node s) ph (s_term s) (s_once s) (s_policy s) (s_opts s) (s_optres s)
-         (s_alloc s) (s_reserved s) (s_ownbad s).
+         (s_alloc s) (s_reserved s) (s_ownbad s) (s_kind s).
 
-Definition is_available (s : rspec) : bool := negb (s_node s =? 0) && (s_phase s =? 1).
+(* IsReservationAvailable; for an operating pod: Running and Ready (phase 1), node not looked at *)
+Definition is_available (s : rspec) : bool :=
+  ((s_kind s =? 1) || negb (s_node s =? 0)) && (s_phase s =? 1).
 Definition is_active (s : rspec) : bool :=
   negb (s_node s =? 0) && ((s_phase s =? 1) || (s_phase s =? 4)).
 Definition is_finished (s : rspec) : bool := (s_phase s =? 2) || (s_phase s =? 3).
@@ -94,9 +97,11 @@ Definition restrict (base opt : list Z) : list Z :=
 
 Definition names_of (s : rspec) : list Z :=
   let base := sortZ (keys (s_alloc s)) in
-  if (s_policy s =? 2) && (s_opts s =? 1) then restrict base (s_optres s) else base.
+  if ((s_policy s =? 2) || (s_kind s =? 1)) && (s_opts s =? 1)
+  then restrict base (s_optres s) else base.
 
-Definition perr_of (s : rspec) : bool := ((s_policy s =? 2) && (s_opts s =? 2)) || s_ownbad s.
+Definition perr_of (s : rspec) : bool :=
+  (((s_policy s =? 2) || (s_kind s =? 1)) && (s_opts s =? 2)) || s_ownbad s.
 
 (* ------------------------------------------------------------------------------------ *)
 (* ReservationInfo                                                                        *)
@@ -213,19 +218,25 @@ Definition refresh (n u : Z) (i : rinfo) (m a : idx) : idx * idx :=
         if negb (is_nil (r_assigned i)) then idx_add n u a else idx_del_keep n u a)
   else (idx_del_clean n u m, idx_del_clean n u a).
 
-(* updateReservation (if_exists = false) / updateReservationIfExists (if_exists = true) *)
-Definition c_update (if_exists : bool) (s : rspec) (c : cache) : cache :=
+(* updateReservationOperatingPod adds the current owner (a pod without requests) before the
+   indexes are refreshed; own = 0: no current owner / not an operating pod *)
+Definition add_owner (own : Z) (i : rinfo) : rinfo :=
+  if own =? 0 then i else add_assigned i own [].
+
+(* updateReservation (if_exists = false) / updateReservationIfExists (if_exists = true) /
+   updateReservationOperatingPod (if_exists = false, own = current owner) *)
+Definition c_update (if_exists : bool) (own : Z) (s : rspec) (c : cache) : cache :=
   match find_info (s_uid s) (infos c) with
   | None =>
     if if_exists then c
     else
-      let i := new_info s in
+      let i := add_owner own (new_info s) in
       let inf := set_info i (infos c) in
       if s_node s =? 0 then mkCache inf (on_node c) (matchable c) (alloc_idx c)
       else let '(m, a) := refresh (s_node s) (s_uid s) i (matchable c) (alloc_idx c) in
            mkCache inf (idx_add (s_node s) (s_uid s) (on_node c)) m a
   | Some i0 =>
-    let i := update_info i0 s in
+    let i := add_owner own (update_info i0 s) in
     let inf := set_info i (infos c) in
     if s_node s =? 0 then mkCache inf (on_node c) (matchable c) (alloc_idx c)
     else let '(m, a) := refresh (s_node s) (s_uid s) i (matchable c) (alloc_idx c) in
@@ -234,7 +245,8 @@ Definition c_update (if_exists : bool) (s : rspec) (c : cache) : cache :=
                  m a
   end.
 
-(* DeleteReservation(r): only r.UID and r.Status.NodeName are looked at *)
+(* DeleteReservation(r) / deleteReservationOperatingPod(pod): only the uid and the node name
+   are looked at *)
 Definition c_delete (u n : Z) (c : cache) : cache :=
   mkCache (del_info u (infos c))
           (if n =? 0 then on_node c else idx_del_clean n u (on_node c))
@@ -286,7 +298,7 @@ Definition c_update_pod (oru nru : Z) (oldp newp : option preq) (c : cache) : ca
 
 (* cache-level operations *)
 Inductive cop :=
-| CUpdate (if_exists : bool) (s : rspec)
+| CUpdate (if_exists : bool) (own : Z) (s : rspec)
 | CDelete (u n : Z)
 | CAddPod (ru pu : Z) (req : res)
 | CDelPod (ru pu : Z)
@@ -294,7 +306,7 @@ Inductive cop :=
 
 Definition cstep (c : cache) (o : cop) : cache :=
   match o with
-  | CUpdate b s => c_update b s c
+  | CUpdate b own s => c_update b own s c
   | CDelete u n => c_delete u n c
   | CAddPod ru pu req => fst (c_add_pod ru pu req c)
   | CDelPod ru pu => c_del_pod ru pu c
@@ -305,13 +317,29 @@ Definition crun (c : cache) (l : list cop) : cache := fold_left cstep l c.
 (* ------------------------------------------------------------------------------------ *)
 (* the entry points the scheduler calls (event handlers + direct cache calls)            *)
 
+Record opx := mkOpx {       (* what makes a pod a reservation-operating-mode pod *)
+  x_ready : bool;           (* Running and Ready *)
+  x_term : bool;            (* DeletionTimestamp set *)
+  x_opts : Z; x_optres : list Z;   (* restricted-options annotation, as in rspec *)
+  x_reserved : res;
+  x_ownbad : bool;          (* reservation-owners annotation has a selector that does not parse *)
+  x_owner : Z               (* uid in the reservation-current-owner annotation, 0 = none *)
+}.
+
 Record pev := mkPev {       (* a pod object as the pod event handler looks at it *)
   e_uid : Z;
   e_req : res;              (* PodRequests(pod) *)
   e_node : Z;               (* Spec.NodeName *)
   e_done : bool;            (* phase Succeeded/Failed *)
-  e_rsv : Z                 (* uid in the reservation-allocated annotation, 0 = none *)
+  e_rsv : Z;                (* uid in the reservation-allocated annotation, 0 = none *)
+  e_op : option opx         (* operating-mode label and annotations *)
 }.
+
+(* an operating pod is cached under its own (pod) uid; pod uid p is reservation uid OPBASE + p *)
+Definition OPBASE : Z := 100.
+Definition op_spec (p : pev) (x : opx) : rspec :=
+  mkSpec (OPBASE + e_uid p) (e_node p) (if x_ready x then 1 else 0) (x_term x) true 1
+         (x_opts x) (x_optres x) (e_req p) (x_reserved x) (x_ownbad x) 1.
 
 Inductive hop :=
 | HRsvAdd (s : rspec)                    (* reservationEventHandler.OnAdd *)
@@ -329,7 +357,11 @@ Definition as_preq (p : pev) : preq := (e_uid p, e_req p).
 
 (* podEventHandler.deletePod *)
 Definition lower_pod_delete (p : pev) : list cop :=
-  if e_rsv p =? 0 then [] else [CDelPod (e_rsv p) (e_uid p)].
+  (if e_rsv p =? 0 then [] else [CDelPod (e_rsv p) (e_uid p)])
+  ++ match e_op p with
+     | Some _ => [CDelete (OPBASE + e_uid p) (e_node p)]
+     | None => []
+     end.
 
 (* podEventHandler.updatePod *)
 Definition lower_pod_update (o : option pev) (p : pev) : list cop :=
@@ -341,17 +373,21 @@ Definition lower_pod_update (o : option pev) (p : pev) : list cop :=
     end
   else
     let oru := match o with Some q => e_rsv q | None => 0 end in
-    if (oru =? 0) && (e_rsv p =? 0) then []
-    else [CUpdatePod oru (e_rsv p) (option_map as_preq o) (Some (as_preq p))].
+    (if (oru =? 0) && (e_rsv p =? 0) then []
+     else [CUpdatePod oru (e_rsv p) (option_map as_preq o) (Some (as_preq p))])
+    ++ match e_op p with
+       | Some x => [CUpdate false (x_owner x) (op_spec p x)]
+       | None => []
+       end.
 
 Definition lower (h : hop) : list cop :=
   match h with
-  | HRsvAdd s => if is_active s then [CUpdate false s] else []
+  | HRsvAdd s => if is_active s then [CUpdate false 0 s] else []
   | HRsvUpdate s =>
-    if is_active s then [CUpdate false s]
-    else if is_finished s then [CUpdate true s] else []
-  | HRsvDelete s => [CUpdate true (if is_available s then set_phase s 3 else s)]
-  | HRsvAssume s => [CUpdate false s]
+    if is_active s then [CUpdate false 0 s]
+    else if is_finished s then [CUpdate true 0 s] else []
+  | HRsvDelete s => [CUpdate true 0 (if is_available s then set_phase s 3 else s)]
+  | HRsvAssume s => [CUpdate false 0 s]
   | HRsvRemove u n => [CDelete u n]
   | HPodAssume ru pu req => [CAddPod ru pu req]
   | HPodForget ru pu => [CDelPod ru pu]
@@ -379,11 +415,12 @@ Fixpoint htrace (c : cache) (l : list hop) : list (Z * cache) :=
 (* ------------------------------------------------------------------------------------ *)
 (* hypotheses on histories, evaluated along the run                                      *)
 
-(* the node name of a cached reservation never changes (k8s: status.nodeName is set once) *)
+(* the node name of a cached reservation never changes (k8s: status.nodeName is set once);
+   updateReservation may also place a reservation that was cached without a node *)
 Definition node_stable_op (c : cache) (o : cop) : bool :=
   match o with
-  | CUpdate _ s => match find_info (s_uid s) (infos c) with
-                   | Some i => (r_node i =? 0) || (r_node i =? s_node s)
+  | CUpdate b _ s => match find_info (s_uid s) (infos c) with
+                   | Some i => (negb b && (r_node i =? 0)) || (r_node i =? s_node s)
                    | None => true
                    end
   | CDelete u n => match find_info u (infos c) with
@@ -399,7 +436,7 @@ Definition grow_safe (i : rinfo) (nm : list Z) : bool :=
                     || (sumZ (map (fun q : preq => getv k (snd q)) (r_assigned i)) =? 0)) nm.
 Definition no_grow_op (c : cache) (o : cop) : bool :=
   match o with
-  | CUpdate _ s => match find_info (s_uid s) (infos c) with
+  | CUpdate _ _ s => match find_info (s_uid s) (infos c) with
                    | Some i => grow_safe i (names_of s)
                    | None => true
                    end
